@@ -78,3 +78,36 @@ def manual_align(ctx, rule: str, modules: Iterable[str]) -> int:
             chk.bad(rule, fn.qual, f"`{norm(e)}` is used without the `if {x} % {N}` guard (or an outer `% {N}`): an already aligned length gets a whole extra block of {N}",
                     f"align_block(...) or ({N} - {x} % {N}) % {N}", A.loc(fn.module.relpath, e))
     return n
+
+
+SIGNED_FORMAT_EXCEPTIONS = {
+    "spsdk/sdp/sdps.py::CmdPacket.to_bytes": "the SDPS command block defines this one byte as signed (value 0 or small positive)",
+}
+
+
+def signed_formats(ctx, rule: str, modules: Iterable[str]) -> int:
+    """Every wire field of the anchored formats is unsigned: a signed struct code (b h i l q) turns values with the top bit set
+    (addresses >= 0x80000000, status words 0xA5..) negative when read and makes pack() reject them when written."""
+    import re
+    import struct as _struct
+    prog, chk = ctx.prog, ctx.chk
+    mods = set(modules)
+    n = 0
+    for fn in CG.all_functions(prog):
+        if fn.module.relpath not in mods:
+            continue
+        for c in ast.walk(fn.node):
+            if not (isinstance(c, ast.Call) and A.call_name(c) in ("pack", "unpack", "unpack_from", "pack_into", "calcsize", "iter_unpack") and c.args):
+                continue
+            f = prog.fold(c.args[0], fn.module, fn.cls)
+            if not isinstance(f, str):
+                continue
+            try:
+                _struct.calcsize(f)
+            except _struct.error:
+                continue
+            n += 1
+            body = f.lstrip("<>=!@")
+            if re.search(r"[bhilq]", body) and fn.qual not in SIGNED_FORMAT_EXCEPTIONS:
+                chk.bad(rule, fn.qual, f"`{norm(c)[:90]}` uses the format {f!r} with a signed item", "unsigned codes (B H I L Q) for wire fields", A.loc(fn.module.relpath, c))
+    return n
